@@ -8,8 +8,10 @@
 (***************************************************************************)
 EXTENDS NoiseNames, TLC, Json
 
+CONSTANT HfsF        \* the hfs build: the resolver interface has a fifth kind, the KEM
 KindChoices(kind) == CASE kind = "rng" -> {"-"} [] kind = "dh" -> DhNames
-                   [] kind = "cipher" -> CipherNames [] kind = "hash" -> HashNames
+                   [] kind = "cipher" -> CipherNames [] kind = "hash" -> HashNames [] kind = "kem" -> KemNames
+Kinds == {"rng", "dh", "cipher", "hash"} \cup (IF HfsF THEN {"kem"} ELSE {})
 
 Resolve(pHas, fHas) == IF pHas THEN "preferred" ELSE IF fHas THEN "fallback" ELSE "none"
 
@@ -17,7 +19,7 @@ VARIABLE done
 Init == done = FALSE
 Next ==
   /\ ~done /\ done' = TRUE
-  /\ \A kind \in {"rng", "dh", "cipher", "hash"} : \A c \in KindChoices(kind) :
+  /\ \A kind \in Kinds : \A c \in KindChoices(kind) :
        \A pHas \in BOOLEAN : \A fHas \in BOOLEAN :
          PrintT(<<"FBK", ToJson([kind |-> kind, choice |-> c, preferred_has |-> pHas, fallback_has |-> fHas,
                                  expect |-> Resolve(pHas, fHas)])>>)
